@@ -49,22 +49,27 @@ def coq_sources():
 
 
 def scan_forbidden():
-    """Hypothesis/Variable are fine inside sections; we forbid the words that declare axioms.
-    'Hypothesis' inside a Section is legal Coq but we simply do not use it outside Tree.v's
-    induction principle, which is whitelisted explicitly."""
+    """Axiom-declaring words anywhere; Variable/Hypothesis only outside a Section (inside a Section
+    they are discharged as explicit premises of every lemma that uses them)."""
     hits = []
     for p in coq_sources():
         rel = os.path.relpath(p, COQ)
         with open(p, encoding="utf-8") as f:
             text = f.read()
-        # strip comments (non-nested approximation is enough: we never write these words in comments)
-        text = re.sub(r"\(\*.*?\*\)", "", text, flags=re.S)
-        for m in FORBIDDEN.finditer(text):
-            word = m.group(0)
-            if word.startswith("Hypothes") and rel in ("Base/Tree.v",):
-                continue
-            line = text.count("\n", 0, m.start()) + 1
-            hits.append(f"{rel}:{line}: {word}")
+        text = re.sub(r"\(\*.*?\*\)", lambda m: "\n" * m.group(0).count("\n"), text, flags=re.S)
+        depth = 0
+        for ln, line in enumerate(text.splitlines(), 1):
+            if re.match(r"\s*(Section|Module)\s+\w+", line) and ":=" not in line:
+                depth += 1
+            elif re.match(r"\s*End\s+\w+\s*\.", line):
+                depth = max(0, depth - 1)
+            for m in FORBIDDEN.finditer(line):
+                word = m.group(0)
+                if word.startswith("Hypothes") and depth > 0:
+                    continue
+                hits.append(f"{rel}:{ln}: {word}")
+            if depth == 0 and re.match(r"\s*(Variable|Variables|Context)\b", line):
+                hits.append(f"{rel}:{ln}: Variable outside a Section")
     return hits
 
 
